@@ -13,6 +13,7 @@ class Registry:
         self.property_extras, self.explanations = {}, {}
         self.trusted, self.assume = {}, {}
         self.spec_ufs = {}
+        self.cache_ok = {}
         self._spec = None
 
     def spec_funcs(self, src=None):
@@ -51,6 +52,7 @@ def load():
         r.models.update(getattr(mod, 'MODELS', {}))
         r.opq_models.update(getattr(mod, 'OPQ_MODELS', {}))
         r.spec_ufs.update(getattr(mod, 'SPEC_UFS', {}))
+        r.cache_ok.update(getattr(mod, 'ASSUMED_CONSISTENT_CACHES', {}))
         r.property_extras.update(getattr(mod, 'EXTRAS', {}))
         r.explanations.update(getattr(mod, 'EXPLANATIONS', {}))
         for k, v in getattr(mod, 'TRUSTED', {}).items():
